@@ -332,6 +332,7 @@ class SimNet:
         self.loop = None
         self.tcp_servers = {}     # (host, port) -> server ; (host, None) -> any port on host
         self.udp_hosts = {}       # ip -> host object with on_probe(net, endpoint, data, dst_addr)
+        self.dns = {}             # host name -> ip
         self.conns = []
         self.endpoints = []
         self.connect_attempts = []   # [(time, host, port, outcome)]
@@ -403,6 +404,7 @@ class SimNet:
 
     def _udp_out(self, endpoint, data, addr):
         ip, port = addr
+        ip = self.dns.get(ip, ip)          # sendto() resolves host names; replies carry the numeric address
         if ip == "255.255.255.255":
             targets = list(self.udp_hosts.items())
         else:
